@@ -127,7 +127,9 @@ def gen_program(rng):
                 env[n] = "real"
         elif r < 0.35:
             n = rng.choice([fresh("cplx")] + [x for x, c in env.items() if c == "real" and not x.startswith("<")][:1])
+            # (2+0j): complex by TYPE with a zero imaginary part (a value-based test such as numpy.iscomplex calls it real)
             e = rng.choice([["*", [pick("real"), ["cz", "1j"]]], ["+", [pick("real"), ["cz", "2j"]]],
+                            ["*", [pick("real"), ["cz", "(2+0j)"]]], ["+", [pick("real"), ["cz", "(1+0j)"]]],
                             ["call", "<func>cx", [pick("real")], []],
                             ["*", [pick("cplx") or ["cz", "1j"], pick("real")]]])
             prog.append([n, None, e, []])
